@@ -15,7 +15,7 @@ RULE = ("Algorithm L consumes continuous uniforms, so this property is decided s
         "compared cell by cell with 1/C(n,k) (exact two-sided binomial tail, Bonferroni over the cells, alarm only if p < 1e-9 AND an "
         "independent confirmation run with 4N executions gives p < 1e-6); n = k is asserted deterministically (everything retained); "
         "for larger pairs (5,40), (10,100), (100,300 = the explainers' default size) and Hypothesis-drawn pairs (k<=12, n<=k+40) the "
-        "per-arrival inclusion counts are compared with k/n. N = 4e4 per pair (quick), 2e6 spread over 16 workers (thorough). "
+        "per-arrival inclusion counts are compared with k/n; LONG streams (k=1, n=30000; k=2, n=25000 - beyond 1e4*k, where numerical guards on the weight would bite) are tested per decile of the stream. N = 4e4 per pair (quick), 2e6 spread over 16 workers (thorough). "
         "Non-trivial: n >= k+2 (at least two skip computations); distinct = distinct (k, n, retained subset) outcomes observed.")
 ASSUMPTIONS = ["CPython's Mersenne Twister stream, consumed sequentially from one seed derived from VERIF_SEED, yields independent runs",
                "deviations below the reported minimal detectable effect pass"]
@@ -74,6 +74,35 @@ def inclusion_check(ctx, k, n, N, seen):
     return ok, info
 
 
+def long_check(ctx, k, n, N, seen):
+    """Long streams (n >> 1e4 k): per decile of the stream, the indicator 'at least one retained arrival lies in this decile'
+    has probability 1 - C(n-m, k)/C(n, k) with m = n/10 (for k = 1: exactly 1/10)."""
+    from ixai.storage import UniformReservoirStorage
+    m = n // 10
+    p_cell = 1.0 - math.comb(n - m, k) / math.comb(n, k)
+    probs = {j: p_cell for j in range(10)}
+
+    def sample(runs, stage):
+        random.seed(ctx.seed_for(f'c08:long:{k}:{n}:{stage}'))
+        counts = {}
+        for _ in range(runs):
+            s = UniformReservoirStorage(size=k, store_targets=False)
+            upd = s.update
+            for i in range(n):
+                upd(i)
+            kept = list(s.get_data()[0])
+            for j in {min(t // m, 9) for t in kept}:
+                counts[j] = counts.get(j, 0) + 1
+            if len(seen) < 200000:
+                seen.add((k, n, tuple(sorted(kept))))
+        ctx.count(runs, label=f'runs:k={k},n={n}')
+        return counts
+
+    ok, info = stats.TwoStage(f'long k={k} n={n}', probs).decide(sample, N)
+    info['min_detectable_abs_dev'] = stats.min_detectable(N, p_cell, 10)
+    return ok, info
+
+
 def run_pair(case, ctx=None):
     """Replay entry: one (k, n) pair with the subset histogram (small) or inclusion counts (large)."""
     from ..core import Ctx
@@ -86,6 +115,8 @@ def run_pair(case, ctx=None):
         return Result(ok, key='C08:n-equals-k', detail=f'k=n={k}: retained {r}')
     if case['kind'] == 'subset':
         ok, info = subset_check(ctx, k, n, N, seen)
+    elif case['kind'] == 'long':
+        ok, info = long_check(ctx, k, n, N, seen)
     else:
         ok, info = inclusion_check(ctx, k, n, N, seen)
     if not ok:
@@ -109,7 +140,7 @@ def run(ctx):
     seen = set()
     N = 40000 if not ctx.thorough() else 125000
     pairs = [(k, n, 'subset') for k in (1, 2, 3) for n in range(k, k + 7)]
-    big = [(5, 40, 'inclusion'), (10, 100, 'inclusion'), (100, 300, 'inclusion')]
+    big = [(5, 40, 'inclusion'), (10, 100, 'inclusion'), (100, 300, 'inclusion'), (1, 30000, 'long'), (2, 25000, 'long')]
     # Hypothesis-drawn additional pairs (deterministic in the seed)
     from hypothesis import given, settings, seed, Phase, HealthCheck
     drawn = []
@@ -136,7 +167,10 @@ def run(ctx):
                 return
             continue
         n_runs = N if n <= 50 else max(N // 8, 5000)
-        if kind == 'subset':
+        if kind == 'long':
+            n_runs = 700 if not ctx.thorough() else 6000
+            ok, info = long_check(ctx, k, n, n_runs, seen)
+        elif kind == 'subset':
             ok, info = subset_check(ctx, k, n, n_runs, seen)
         else:
             ok, info = inclusion_check(ctx, k, n, n_runs, seen)
